@@ -1,4 +1,37 @@
+use std::alloc::{GlobalAlloc, Layout, System};
+
 use vcheck::runner::{install_panic_hook, Ctx, Tier};
+
+/// Every freed block is overwritten (0xDD, never valid UTF-8) before it goes back to the system allocator, and a
+/// `realloc` always moves: a borrow that outlives its allocation - a chunk, name or content read after the call that
+/// handed it out has returned (observe::stream does exactly that), a reference into a vector that grew - then reads
+/// bytes that cannot be mistaken for the data it once pointed to, instead of stale bytes that still look right.
+struct Poison;
+
+unsafe impl GlobalAlloc for Poison {
+  unsafe fn alloc(&self, l: Layout) -> *mut u8 {
+    System.alloc(l)
+  }
+  unsafe fn alloc_zeroed(&self, l: Layout) -> *mut u8 {
+    System.alloc_zeroed(l)
+  }
+  unsafe fn dealloc(&self, p: *mut u8, l: Layout) {
+    std::ptr::write_bytes(p, 0xDD, l.size());
+    System.dealloc(p, l)
+  }
+  unsafe fn realloc(&self, p: *mut u8, l: Layout, new_size: usize) -> *mut u8 {
+    let nl = Layout::from_size_align_unchecked(new_size, l.align());
+    let q = System.alloc(nl);
+    if !q.is_null() {
+      std::ptr::copy_nonoverlapping(p, q, l.size().min(new_size));
+      self.dealloc(p, l);
+    }
+    q
+  }
+}
+
+#[global_allocator]
+static ALLOC: Poison = Poison;
 
 fn usage() -> ! {
   eprintln!("usage: vcheck <ID> quick|thorough | vcheck <ID> replay <file>");
